@@ -16,7 +16,7 @@ from .. import canon_session, doccheck, editgen, engine_oracles, engine_run, gen
 from . import c06, c10
 
 PROFILE = {"vmerge": 0.0, "point_comment": 0.0, "comment": 0.25, "reply": 0.5, "ins": 0.2, "del": 0.2, "subst": 0.1,
-           "header": 0.0, "footer": 0.0}
+           "header": 0.0, "footer": 0.0, "odd_rev_id": 0.06, "shuffle_comments": 0.35, "comment_id_gap": 0.25}
 PROFILES = {"default": PROFILE, "stories": dict(PROFILE, header=0.6, footer=0.5)}
 
 
@@ -31,7 +31,12 @@ def work(case):
     texts = engine_run.texts_of(data)
     edits = case.get("edits")
     if edits is None:
-        edits = editgen.gen_mixed_batch(rng, doc, texts, rng.randint(1, 3), comment_p=0.5)
+        # (targets may lie inside another reviewer's pending insertion: validity must hold there too)
+        edits = editgen.gen_mixed_batch(rng, doc, texts, rng.randint(1, 3), comment_p=0.5, states=("plain", "ins"))
+        if rng.random() < 0.4:
+            # a quote from the accepted view that ends with another reviewer's pending insertion
+            x = editgen.gen_cross_ins_edit(rng, doc, texts)
+            edits += [e for e in x if not any(e["pi"] == y.get("pi") for y in edits)]
     actions = case.get("actions")
     if actions is None:
         actions = c06.gen_actions(rng, doc) + c10.gen_replies(rng, doc)
@@ -43,9 +48,14 @@ def work(case):
     # second round by another author on the saved result of the first
     if r1["out_bytes"]:
         t2 = engine_run.texts_of(r1["out_bytes"])
-        e2 = editgen.gen_mixed_batch(rng, r1["out_doc"], t2, rng.randint(1, 2), comment_p=0.5)
+        e2 = editgen.gen_mixed_batch(rng, r1["out_doc"], t2, rng.randint(1, 2), comment_p=0.5, states=("plain", "ins"))
+        if rng.random() < 0.4:
+            x = editgen.gen_cross_ins_edit(rng, r1["out_doc"], t2)
+            e2 += [e for e in x if not any(e["pi"] == y.get("pi") for y in e2)]
         outs["round2"] = dict(engine_run.run_edits(r1["out_bytes"], e2, author="Second Author"), base=r1["out_doc"], author="Second Author")
-    ix = [dict(e, index=texts["raw"].find(e["target"])) for e in edits if e.get("locatable") and e.get("in_raw")]
+    # (the Lean engine model covers edits on text that is not part of a pending insertion)
+    ix = [dict(e, index=texts["raw"].find(e["target"])) for e in edits
+          if e.get("locatable") and e.get("in_raw") and e.get("state", "plain") == "plain"]
     rix = engine_run.run_edits(data, ix) if ix else None
     fails = []
     for name, r in outs.items():
